@@ -1133,6 +1133,7 @@ Proof.
   intros H. unfold finalize.
   destruct (w_finalized w); [exact H|].
   destruct ((U16MAX <? vt_width v) || (U16MAX <? vt_height v)); [exact H|].
+  destruct (param_sets_too_long (w_vconfig w)) eqn:Gps; [exact H|].
   destruct (if fs then finalize_fast_start w v m (effective_config w)
             else finalize_standard w v m (effective_config w)) as [bufs term].
   destruct (run_plan bufs (w_bytes_written w) (w_sink w)) as [[bw s] e].
@@ -1666,6 +1667,7 @@ Lemma finalize_ok_plan w v md f w' :
 Proof.
   unfold finalize. destruct (w_finalized w); [discriminate|].
   destruct ((U16MAX <? vt_width v) || (U16MAX <? vt_height v)); [discriminate|].
+  destruct (param_sets_too_long (w_vconfig w)) eqn:Gps; [discriminate|].
   destruct (if f then finalize_fast_start w v md (effective_config w)
             else finalize_standard w v md (effective_config w)) as [bufs term] eqn:EP.
   destruct (run_plan bufs (w_bytes_written w) (w_sink w)) as [[bw s] e] eqn:ER.
@@ -1741,6 +1743,7 @@ Proof.
   unfold finalize.
   destruct (w_finalized w); [reflexivity|].
   destruct ((U16MAX <? vt_width v) || (U16MAX <? vt_height v)); [reflexivity|].
+  destruct (param_sets_too_long (w_vconfig w)) eqn:Gps; [reflexivity|].
   destruct (if fs then finalize_fast_start w v m (effective_config w)
             else finalize_standard w v m (effective_config w)) as [bufs term].
   destruct (run_plan bufs (w_bytes_written w) (w_sink w)) as [[bw s] e].
